@@ -14,7 +14,7 @@ const BRUTE_MAX: usize = 7; // must equal BruteMax in Trace_C02.tla / Trace_C09.
 
 /// Build the matrix with the given ones. A matrix is a SET of positions: the history of insert() calls (and so the
 /// order of the adjacency lists) must not matter, therefore two thirds of the matrices are built in a shuffled
-/// order derived from their content, the rest in row-major order.
+/// order derived from their content, the rest in row-major order; one in five through insert_row / insert_col with a repeated index.
 pub fn sparse_from_rows(rows: &[Vec<usize>], n: usize) -> SparseMatrix {
     let mut entries: Vec<(usize, usize)> = rows.iter().enumerate().flat_map(|(r, cs)| cs.iter().map(move |&c| (r, c))).collect();
     let salt = entries.iter().fold(n as u64 * 1315423911 + rows.len() as u64, |a, &(r, c)| a.rotate_left(7) ^ ((r as u64) << 20 | c as u64).wrapping_mul(0x9E3779B97F4A7C15));
@@ -22,6 +22,24 @@ pub fn sparse_from_rows(rows: &[Vec<usize>], n: usize) -> SparseMatrix {
         Rng::new(salt).shuffle(&mut entries);
     }
     let mut h = SparseMatrix::new(rows.len(), n);
+    if salt % 5 == 1 {
+        // a third history: the bulk operations, each list given with its first index REPEATED at the end (positions drawn with
+        // replacement, colliding quasi-cyclic offsets): a repeated index means a single one
+        if salt % 2 == 0 {
+            for (r, cs) in rows.iter().enumerate() {
+                let mut l = cs.clone();
+                if let Some(&f) = cs.first() { l.push(f); }
+                h.insert_row(r, l.iter());
+            }
+        } else {
+            for c in 0..n {
+                let mut l: Vec<usize> = (0..rows.len()).filter(|&r| rows[r].contains(&c)).collect();
+                if let Some(&f) = l.first() { l.push(f); }
+                h.insert_col(c, l.iter());
+            }
+        }
+        return h;
+    }
     for (r, c) in entries {
         h.insert(r, c);
     }
